@@ -398,6 +398,8 @@ def phi(c, a, b):
             return b_or(b_not(c), a)
         if b == FALSE:
             return b_and(c, a)
+    if a[0] == "app" and b[0] == "app" and a[1] == b[1]:
+        return ("app", a[1], phi(c, a[2], b[2]))          # both branches append to the same list
     if c[0] == "not":
         return phi(c[1], b, a)
     if c[0] == "cmp" and c[1] in ("le", "ne"):
